@@ -34,7 +34,7 @@ ASSUMPTIONS = [
 REAL = REAL_ALL
 STUB = STUB_ALL + ["stdout during stratum-P runs: every write raises ENOSPC (I/O fault at the policy's print step)", "pass-through wrappers recording that Fail._decide_match / Stopper._stop_me / ErrorHandler._handle_if executed (secondary monitor)"]
 
-FAMILIES = ["plain", "no", "fas", "onmatch", "after_stop", "after_skip", "when_false", "error", "error_vm_fail", "error_vm_nofail", "onmatch_rejected", "fail_then_error", "error_skip_same_line", "fas_onmatch", "plain_nocontrib", "fas_nocontrib", "abort_outside", "error_lhs_fail", "imported_plain", "fail_all_stop_all"]
+FAMILIES = ["plain", "no", "fas", "onmatch", "after_stop", "after_skip", "when_false", "error", "error_vm_fail", "error_vm_nofail", "onmatch_rejected", "fail_then_error", "error_skip_same_line", "fas_onmatch", "plain_nocontrib", "fas_nocontrib", "abort_outside", "error_lhs_fail", "imported_plain", "fail_all_stop_all", "nested_fas_and", "fail_all_first"]
 PRE = 'push("bl", line_number()) push("b", valid()) push("bf", failed())'
 POST = 'push("al", line_number()) push("a", valid()) push("af", failed()) simprobe("p")'
 
@@ -60,6 +60,12 @@ def family_body(fam, K):
         # the rule lives in another named-paths group and is pulled in with import(): every importing member gets its own
         # copy of it (K is the same for all importers of a scenario: see lib_text)
         return 'import("lib")'
+    if fam == "nested_fas_and":
+        # a stopper nested as an ARGUMENT of and(): and()'s first argument is never true, fail_and_stop() is never due
+        return 'and(#c == "NEVER", fail_and_stop())'
+    if fam == "fail_all_first":
+        # next_paths(): the first member fails the file for everyone on line K; the members after it start out failed
+        return f"line_number() == {K} -> fail_all()"
     if fam == "fail_all_stop_all":
         # "fail the file for everyone and end the run" on one line (breadth-first runs only)
         return f"line_number() == {K} -> fail_all() line_number() == {K} -> stop_all()"
@@ -158,16 +164,21 @@ def generate(rng, i, tier):
                 m["fam"] = "plain"
             else:
                 seen_fasa = True
+        if m["fam"] == "fail_all_first":
+            if method not in ("next_paths", "next_paths_collect") or seen_fasa:
+                m["fam"] = "plain"
+            else:
+                seen_fasa = True
     if seen_fasa:
         # siblings of the signalling member: families that never stop, skip or raise (what a stopped member makes of a
         # sibling's fail_all() is not this stratum's business)
         for m in members:
-            if m["fam"] not in ("fail_all_stop_all", "plain", "no", "when_false", "plain_nocontrib", "imported_plain"):
+            if m["fam"] not in ("fail_all_stop_all", "fail_all_first", "plain", "no", "when_false", "plain_nocontrib", "imported_plain", "nested_fas_and"):
                 m["fam"] = "plain"
             m.pop("scan", None)
         # the signalling member goes first: siblings ordered BEFORE it have already been visited on that line and are
         # stopped before the signal is applied to them (they stay valid in the unchanged library; not asserted here)
-        members.sort(key=lambda m: m["fam"] != "fail_all_stop_all")
+        members.sort(key=lambda m: m["fam"] not in ("fail_all_stop_all", "fail_all_first"))
     if method not in ops.SERIAL:
         # a failure outside every component is only handled member by member in a serial CsvPaths run (a standalone CsvPath
         # hands it to the caller; a breadth-first run drops the rest of that line for the other members)
@@ -216,9 +227,9 @@ def reductions(sc):
             yield with_(sc, planted=[x for x in sc["planted"] if x != l])
     if sc.get("prelude"):
         yield with_(sc, prelude=None)
-    if sc["method"] not in ("standalone", "collect_paths") and not any(m.get("fam") in ("abort_outside", "fail_all_stop_all") for m in sc["members"]):
+    if sc["method"] not in ("standalone", "collect_paths") and not any(m.get("fam") in ("abort_outside", "fail_all_stop_all", "fail_all_first") for m in sc["members"]):
         yield with_(sc, method="collect_paths")
-    if sc["method"] in ops.SERIAL and sc["method"] != "collect_paths" and not any(m.get("fam") == "imported_plain" for m in sc["members"]):
+    if sc["method"] in ops.SERIAL and sc["method"] != "collect_paths" and not any(m.get("fam") in ("imported_plain", "fail_all_first") for m in sc["members"]):
         yield with_(sc, method="collect_paths")
 
 
@@ -242,6 +253,10 @@ def first_event(sc, m, lines):
         return (K if K in lines else None), True, None
     if fam == "fail_all_stop_all":
         return (K if K in lines else None), True, (K if K in lines else None)
+    if fam == "fail_all_first":
+        return (K if K in lines else None), True, None
+    if fam == "nested_fas_and":
+        return None, True, None
     if fam in ("fas", "onmatch", "fas_onmatch", "fas_nocontrib"):
         p = [l for l in sc["planted"] if l in lines]
         return (p[0] if p else None), True, (p[0] if p and fam != "onmatch" else None)
@@ -287,6 +302,10 @@ def execute(sc):
     k = len(members)
     exp = [first_event(sc, m, lines if m.get("scan", "*") == "*" else []) for m in members]
     sig = next((m["K"] for m in members if m["fam"] == "fail_all_stop_all" and m["K"] in lines), None)
+    sig1 = next((m["K"] for m in members if m["fam"] == "fail_all_first" and m["K"] in lines), None)
+    if sig1 is not None:
+        # next_paths(): every member created after the signalling (first) one is failed before it reads a line
+        exp = [exp[0]] + [(-1, True, last) for (F, sl, last) in exp[1:]]
     if sig is not None:
         # fail_all() + stop_all() on line `sig` of a breadth-first run: every member is failed and stopped there
         exp = [((min(F, sig) if F is not None else sig), (sl if (F is not None and F < sig) else True), sig) for (F, sl, last) in exp]
@@ -477,6 +496,7 @@ def execute(sc):
         out.probe("run after an earlier run that used a cross-path signal on the same instance", False)
         out.probe("error policy in config.ini changed between two runs on one instance", False)
         out.probe("members sharing one identity", bool(sc.get("dup_ids")))
+        out.probe("fail_all() by the first member of a next_paths() run with members after it", sig1 is not None and k > 1)
         out.probe("fail_all() and stop_all() on one line of a breadth-first run", sig is not None and k > 1)
         out.probe("two members importing the same csvpath that holds a fail()", sum(1 for m in members if m["fam"] == "imported_plain") > 1)
         out.probe("member with explain-mode", any(m.get("explain") for m in members))
